@@ -348,7 +348,7 @@ pub fn run(a: &Args) {
                     let i = k % chunks;
                     k += 1;
                     distinct.insert((t, true, format!("path:{}", hh)));
-                    run_history_path(&mut traces[i], &concs[i], t, &hh, &syms, &prop, &tmp.0.join(format!("p{}.shp", k)));
+                    run_history_path(&mut traces[i], &concs[i], t, &hh, &syms, &prop, &crate::cmd_codec::path_variant(&tmp.0, "p", k));
                 }
             }
         }
